@@ -112,7 +112,6 @@ func (e *SpecEnv) tr(x ast.Expr) T {
 	return T{}
 }
 
-
 func (e *SpecEnv) wantBool(x ast.Expr) T {
 	t := e.tr(x)
 	if t.Sort != SBool {
@@ -326,6 +325,18 @@ func (e *SpecEnv) selector(x *ast.SelectorExpr) T {
 		base = e.tr(x.X)
 	}
 	gt := base.Go
+	if base.Sort == SCtx {
+		switch x.Sel.Name {
+		case "height":
+			return App(SInt, "ctx_height", base)
+		case "time":
+			return App(SInt, "ctx_time", base)
+		case "chainid":
+			return App(SBytes, "ctx_chainid", base)
+		case "cell":
+			return App(SInt, "ctx_cell", base)
+		}
+	}
 	if gt == nil {
 		sfail("no Go type for %s; cannot select .%s", exprString(x.X), x.Sel.Name)
 	}
@@ -400,6 +411,13 @@ func (e *SpecEnv) call(x *ast.CallExpr) T {
 				return e.ex.Unm(gt, b)
 			case "zero":
 				return e.ex.ZeroOf(gt)
+			case "heapsame": // heapsame[T](): the heap of pointee type T is as at entry
+				if e.old == nil {
+					sfail("heapsame needs an old state")
+				}
+				_, h1 := e.cur.Heap(gt)
+				_, h0 := e.old.Heap(gt)
+				return Eq(h1, h0)
 			case "norm": // norm[T](x): what decoding the encoding of x yields (nil Int/Dec fields become 0)
 				v := e.tr(x.Args[0])
 				return WithGo(e.ex.normForCodec(v, gt, 0), gt)
@@ -532,6 +550,12 @@ func (e *SpecEnv) call(x *ast.CallExpr) T {
 			parts = append(parts, p)
 		}
 		return e.ex.JoinTerm(parts, "/")
+	case "cat":
+		a, b := e.tr(x.Args[0]), e.tr(x.Args[1])
+		if a.Sort != SBytes || b.Sort != SBytes {
+			sfail("cat: arguments must be byte strings, got %s and %s", a.Sort, b.Sort)
+		}
+		return Cat(a, b)
 	case "joinsep":
 		lit, ok := x.Args[0].(*ast.BasicLit)
 		if !ok {
@@ -572,6 +596,12 @@ func (e *SpecEnv) call(x *ast.CallExpr) T {
 			v = bnilT
 		}
 		return WithGo(stSet(stt, sid, k, v), nil)
+	case "contains":
+		sl, xx := e.tr(x.Args[0]), e.tr(x.Args[1])
+		if sl.Sort != SSlice || xx.Sort != SBytes {
+			sfail("contains: want ([]string, string), got (%s, %s)", sl.Sort, xx.Sort)
+		}
+		return e.ex.sliceContains(e.cur, sl, xx)
 	case "traceN":
 		return e.cur.traceN
 	case "traceAt":
